@@ -123,8 +123,9 @@ static void b_list(unsigned n, _Bool add, _Bool found)
 	rc = add ? cfg_addlist(&cfg, "l", 2, a, b) : cfg_setlist(&cfg, "l", 2, a, b);
 	if (!found || !(s.flags & CFGF_LIST)) {
 		CHECK("C09,C10", rc == CFG_FAIL && same(&o, &s), "list set/append on an unknown name or a non-list option fails without effect");
-	} else if (rc == CFG_SUCCESS && o.nvalues >= 2) {
+	} else {
 		unsigned base = add ? n : 0;
+		CHECK("C09", rc == CFG_SUCCESS, "list set/append on a list option succeeds (no allocation failure in this unit)");
 		CHECK("C09", o.nvalues == base + 2, "list append appends to whatever the option holds (defaults included); list set replaces");
 		if (o.nvalues == base + 2) {
 			CHECK("C09", o.values[base]->number == a && o.values[base + 1]->number == b, "list set/append stores the new values in order at the end");
